@@ -17,7 +17,7 @@ open Lz4V Lz4V.Util Lz4V.Go Lz4V.Model
 /-- a failure point: `-1` never; `k` from the k-th call on; `k!` (a transient failure of the k-th call only) is
 the same for the model, because no Writer or Reader calls its sink or source again after a failure -/
 def optNat (s : String) : Option Nat :=
-  let s := (s.replace "!" "").replace "~" ""
+  let s := ((s.replace "!" "").replace "~" "").replace "^" ""
   if s == "-1" || s == "-" then none else s.toNat?
 
 def loadBlob (t : String) : IO (Array UInt8) := do
